@@ -43,6 +43,14 @@ def replay_encoding(p):
             _f.cache_clear()
     ob = p.get('obligation', '')
     a = p['args']
+    UV_EDGES = [0, 127, 128, 16383, 16384, 1073741823, 1073741824, 2147483648, 4294967295, 4294967296]
+    INT_EDGES = [-2147483648, -32768, -128, 0, 127, 255, 32767, 65535, 2147483647, 4294967295]
+    if ob.endswith('uvari_edges'):
+        a = [UV_EDGES[a[0]] + a[1]]
+    elif ob.endswith('fixed_int_edges'):
+        a = [a[0], INT_EDGES[a[1]] + a[2]]
+    elif ob.endswith('obname_edges'):
+        a = [UV_EDGES[a[0]] + a[1], a[2], a[3], False]
     if 'fixed_int' in ob:
         name, code, w, signed = INT[a[0]]
         v = a[1]
@@ -138,6 +146,31 @@ def replay_encoding(p):
             dt = datetime(y, mo, d, h, mi, s, us, tzinfo=timezone.utc)
         except ValueError:
             return _res(p, '', {'skipped': 'not a calendar date'})
+        from datetime import timedelta
+        # the same instant expressed in UTC+11 and UTC-11 (crosses day / month / year boundaries for edge instants)
+        for off in (11, -11):
+            try:
+                loc = dt.astimezone(timezone(timedelta(hours=off)))
+            except (OverflowError, ValueError):
+                continue
+            b2, e2 = _try(write_struct, RepC.DTIME, loc)
+            b0, e0 = _try(write_struct, RepC.DTIME, dt)
+            if (b2 is None) != (b0 is None) or b2 != b0:
+                return _res(p, f'{loc.isoformat()} and {dt.isoformat()} are the same instant but encode as {b2.hex() if b2 else e2} / {b0.hex() if b0 else e0}')
+        # a battery of instants close to a year / month / day boundary, each expressed with a non-zero UTC offset:
+        # the bytes must be those of the UTC instant (a field taken from the object before its conversion shows here)
+        for (yy, mm, dd, hh, mn, off) in ((2024, 3, 1, 0, 30, 2), (2023, 12, 31, 23, 30, -5), (2024, 1, 1, 0, 15, 14),
+                                          (2021, 7, 31, 20, 0, -9), (2000, 2, 29, 23, 59, -1), (1999, 12, 31, 12, 0, -12)):
+            loc = datetime(yy, mm, dd, hh, mn, 7, 250000, tzinfo=timezone(timedelta(hours=off)))
+            b2, e2 = _try(write_struct, RepC.DTIME, loc)
+            b0, e0 = _try(write_struct, RepC.DTIME, loc.astimezone(timezone.utc))
+            if b2 != b0:
+                return _res(p, f'{loc.isoformat()} encodes as {b2.hex() if b2 else e2}, its UTC form as {b0.hex() if b0 else e0}')
+            if b0 is not None:
+                got0, _p0 = strict.dec_dtime(b0, 0)
+                u = loc.astimezone(timezone.utc)
+                if (got0['year'], got0['month'], got0['day'], got0['hour'], got0['minute']) != (u.year, u.month, u.day, u.hour, u.minute):
+                    return _res(p, f'{loc.isoformat()} decodes to {got0}')
         b, e = _try(write_struct, RepC.DTIME, dt)
         if e is not None:
             bad = f'raised {type(e).__name__}: {e}' if 1900 <= y <= 2155 else ''
